@@ -144,14 +144,21 @@ Fixpoint dec_members (fuel : nat) (cnt : N) (acc : members) : dec members :=
       else let+ st := dec_ns_body in dec_members f (cnt - 1) (<[id := Some st]> acc)
   end.
 
+(** if int64(memLen) > int64(r.RemainingSize())/5 { return nil, io.ErrUnexpectedEOF } *)
+Definition d_member_guard (memlen : N) : dec unit := fun bs =>
+  if N.of_nat (length bs) / 5 <? memlen then (0, MErr (ME EEOF)) else (0, MOk (tt, bs)).
+
+(** the guard, make(map[string]*NodeState, memLen) and the member loop *)
+Definition d_members (memlen : N) : dec members :=
+  let+ _ := d_member_guard memlen in
+  let+ _ := dalloc (slot_member * memlen) in
+  fun bs => dec_members (S (length bs)) memlen ∅ bs.
+
 Definition dec_view : dec (option view) :=
   let+ n := d_u32 in
   if n =? 0 then dret None else
   let+ id := d_str in let+ ep := d_i64 in let+ ts := d_i64 in let+ memlen := d_u32 in
-  (* every member takes at least five bytes: a count above RemainingSize()/5 is rejected before the allocation *)
-  let+ _ := (fun bs => if N.of_nat (length bs) / 5 <? memlen then (0, MErr (ME EEOF)) else (0, MOk (tt, bs))) in
-  let+ _ := dalloc (slot_member * memlen) in        (* make(map[string]*NodeState, memLen) *)
-  let+ ms := (fun bs => dec_members (S (length bs)) memlen ∅ bs) in
+  let+ ms := d_members memlen in
   let+ h := d_i32 in let+ u := d_i32 in let+ q := d_i32 in
   let+ vvec := d_vv in
   let+ pv := d_u16 in let+ mx := d_i32 in
